@@ -23,7 +23,7 @@ type timeoutIn struct {
 	InBatch bool          `json:"inBatch"` // the wrapped Timeout is one of two Batch members
 }
 
-// runTimeout: a nominally timely step that nevertheless took d or longer means the process was
+// runTimeout: a step answered more than d/2 after its answer was due means the process was
 // stalled (scheduler, GC, a loaded machine) - or that Timeout is broken.  The case is run again, up
 // to four times; the last attempt is reported whatever it shows, so a real defect still surfaces.
 func runTimeout(raw json.RawMessage) interface{} {
@@ -76,7 +76,12 @@ func runTimeoutOnce(in timeoutIn) (map[string]interface{}, bool) {
 			vals = append(vals, v.Value)
 		}
 		outs = append(outs, map[string]interface{}{"values": vals, "usage": res.Usage, "nospace": res.Nospace, "elapsedMs": elapsed.Milliseconds(), "panic": res.Panic})
-		if s.Dur >= 0 && s.Dur < in.D && elapsed >= d-2*time.Millisecond {
+		// the answer is due at min(dur, d); more than d/2 later than that means the process was held up
+		due := d
+		if s.Dur >= 0 && s.Dur < in.D {
+			due = time.Duration(s.Dur) * time.Millisecond
+		}
+		if elapsed >= due+d/2 {
 			stalled = true
 		}
 		time.Sleep(time.Duration(s.Gap) * time.Millisecond)
